@@ -58,7 +58,7 @@ AREAS = {
         'shrink_sep': ';', 'head_sep': None,
         'rule': '1-4 (thorough 1-6) abstract filters (kind, enabled, negated, ECU/APID/CTID as literal / regex / flag omitted (auto-detection) / over-long / '
                 'non-compiling, type value via verb_mstp_mtin or mstp, level bounds, payload literal or regex with/without ignore-case, lifecycle list) rendered to '
-                'JSON and (when expressible) to a dlt-viewer DLF file, loaded by the real constructors, serialised and re-loaded; 1-8 (thorough 1-16) messages over a small id '
+                'JSON, (when expressible) to a dlt-viewer DLF file and to an entry of a dlt-convert APID/CTID list (alone and behind the other expressible entries), loaded by the real constructors, serialised and re-loaded; 1-8 (thorough 1-16) messages over a small id '
                 'universe (short and full ids), with/without extended header, all 256 type bytes, lifecycles 0-3, payload texts differing in case (text as '
                 'computed by Rust); regex verdicts observed with the same crates on exactly the pattern/haystack pairs of the case',
     },
@@ -202,7 +202,7 @@ PROPS = {
     },
     'C11': {
         'id': 'C11', 'area': 'flt',
-        'theorems': ['Props.C11_matches', 'Props.C11_noext', 'Props.C11_frontends_agree'],
+        'theorems': ['Props.C11_matches', 'Props.C11_noext', 'Props.C11_frontends_agree', 'Props.C11_list_agrees', 'Props.C11_json_roundtrip'],
         'n_quick': 3000, 'n_thorough': 100000,
     },
     'C12': {
